@@ -10,7 +10,7 @@
 From Coq Require Import NArith List String Bool.
 From Coq Require Import Strings.Byte.
 From PDL Require Import Base.Bits Lang.Ast Lang.Sexp Analyzer.Schema Sem.RefEncode
-     Proofs.BitfieldEncode Proofs.StaticSize Proofs.StaticSizeArrays Proofs.SchemaEnums.
+     Proofs.BitfieldEncode Proofs.StaticSize Proofs.StaticSizeArrays Proofs.SchemaEnums Proofs.AnalyzerSchema.
 Import ListNotations.
 Open Scope N_scope.
 
@@ -87,3 +87,16 @@ Theorem C16_example_every_value :
     ref_enc_fields ex_fl ex_rec ex_packet ex_fs [] obj [] ex_fs 0 0 = Some ss -> 8 * seg_len ss = 184.
 Proof. exact ex_every_value. Qed.
 Print Assumptions C16_example_every_value.
+
+(** The two models of Schema::new -- the one inside the analyzer model (Passes.schema_new,
+    compared with /repo per run) and the one the backend theorems use (Schema.mk_schema) --
+    agree on every file that passes the padding check; on files that do not, the analyzer's
+    panics where the other returns a schema ([schema_models_disagree]: both are rejected
+    with E39 before any schema is built). *)
+Theorem C16_the_two_schema_models_agree :
+  forall fl : file,
+    PDL.Analyzer.Passes.check_padding_fields fl = [] ->
+    option_map PDL.Analyzer.Passes.as_decls (PDL.Analyzer.Desugar.pres_option (PDL.Analyzer.Passes.schema_new fl))
+    = mk_schema fl.
+Proof. exact schema_models_agree_padding_checked. Qed.
+Print Assumptions C16_the_two_schema_models_agree.
